@@ -168,7 +168,7 @@ func c20RunSweep(c *Checker, full bool) *c20Sweep {
 	}
 	to := 120 * time.Second
 	if full {
-		to = 600 * time.Second
+		to = 1800 * time.Second
 	}
 	run := runOverlayTestFlags(c.W.Repo, filepath.Join("cli", "tool"), fmt.Sprintf(c20SweepSrc, full), c.Dir, to, "")
 	s := &c20Sweep{out: run.Out}
